@@ -41,7 +41,7 @@ Record opinfo := mkop {
   oi_call : nat;      (* index of the API call (Close = number of calls) *)
   oi_kind : opkind;
   oi_tgt  : target;
-  oi_off  : nat;      (* writes: file offset *)
+  oi_off  : nat;      (* writes: file offset; Remove of an upload: its position in FILES_TMPNAMES *)
   oi_len  : nat       (* writes: number of bytes *)
 }.
 
@@ -233,8 +233,8 @@ Definition fs_close (S : sched) (t : target) (id : nat) (w : world) : bool * wor
    set_fs (mkfs (fs_files fs) (fs_next fs) (drop_nat id (fs_open fs))) w1).
 
 (* os.Remove: a failure with k = 0 leaves the file, with k > 0 the file is already gone *)
-Definition fs_remove (S : sched) (t : target) (id : nat) (w : world) : bool * world :=
-  let '(r, w1) := do_op S ORemove t 0 0 w in
+Definition fs_remove (S : sched) (t : target) (pos : nat) (id : nat) (w : world) : bool * world :=
+  let '(r, w1) := do_op S ORemove t pos 0 w in
   let fs := w_fs w1 in
   match r with
   | Some 0 => (false, w1)
@@ -314,9 +314,9 @@ Definition bb_reset (V : variant) (S : sched) (w : world) : bool * world :=
   | Some id =>
     let '(okc, w1) := fs_close S TSpill id w0 in
     if v_reset_fixed V then
-      let '(okr, w2) := fs_remove S TSpill id w1 in
+      let '(okr, w2) := fs_remove S TSpill 0 id w1 in
       (okr && okc, w2)
-    else if okc then fs_remove S TSpill id w1
+    else if okc then fs_remove S TSpill 0 id w1
     else (false, w1)
   end.
 
@@ -494,14 +494,17 @@ Definition process_logging (V : variant) (S : sched) (c : cfg) (w : world) : wor
 Definition keep_files (c : cfg) (t : txs) : bool :=
   match c_keep c with KOn => true | KRelevant => t_relevant t | KOff => false end.
 
-Fixpoint remove_all (S : sched) (ids : list nat) (w : world) : bool * world :=
+(* the removal loop of Close: EVERY entry of FILES_TMPNAMES is tried, every error is collected;
+   [pos] is the position of the head of [ids] in FILES_TMPNAMES *)
+Fixpoint remove_from (S : sched) (pos : nat) (ids : list nat) (w : world) : bool * world :=
   match ids with
   | [] => (true, w)
   | id :: r =>
-    let '(ok1, w1) := fs_remove S TUpload id w in
-    let '(ok2, w2) := remove_all S r w1 in
+    let '(ok1, w1) := fs_remove S TUpload pos id w in
+    let '(ok2, w2) := remove_from S (Datatypes.S pos) r w1 in
     (ok1 && ok2, w2)
   end.
+Definition remove_all (S : sched) (ids : list nat) (w : world) : bool * world := remove_from S 0 ids w.
 
 (* variables.reset(): every collection and TX variable; lastPhase, the interruption and the
    matched rules stay until newTransaction *)
